@@ -168,9 +168,20 @@ def c05_instances(tier):
 
 
 # ------------------------------------------------------------------------------------------ table
+_WIP = "check not built yet in this round (work in progress; see DESIGN.md section 6 for the planned contract)"
+NOT_APPLICABLE = {k: _WIP for k in ["C01", "C02", "C03", "C06", "C07", "C08", "C09", "C10", "C11", "C12", "C13", "C14", "C15",
+                                    "C16", "C17", "C18", "C19"]}
+
 PROPS = {
     "C04": {
         "level": "model_checking",
+        "technique": "bounded contract checking (Kani/CBMC) of the real element-wise operators per concrete shape pair, symbolic values",
+        "level_text": "Bounded, not a proof: for every shape pair of the table (all alignment classes of sliced_op's broadcast walk; "
+                      "thorough: all ordered pairs of shapes of rank <= 3 over sizes {1,2}) CBMC decides the C04 postcondition for all "
+                      "values of the domain, or that the call panics for incompatible shapes. The unbounded part of the broadcast walk "
+                      "(slice_offset for every rank and size) is a Verus obligation.",
+        "level_note": "shapes concrete per instance; values symbolic integers in [-4,4] (one full-bit-pattern instance per operator in "
+                      "the thorough tier); Rc::drop_slow stubbed; A1 for the Verus unit",
         "kani_groups": ["h_elementwise.rs"],
         "instances": c04_instances,
         "explanation": "Bounded contract check (Kani/CBMC on the real crate): for each concrete shape pair the harness states C04 "
@@ -179,6 +190,13 @@ PROPS = {
     },
     "C05": {
         "level": "other",
+        "technique": "Verus proof of the extracted matmul_slice kernel (all sizes, all transpositions) + bounded Kani contract "
+                     "instances of Array::matmul",
+        "level_text": "Kernel: unbounded deductive proof (Verus/Z3) on the verbatim function text. Shape derivation, batch iteration, "
+                      "additive term, rank-1 forms, refusals: bounded Kani instances per concrete shape class, symbolic values. The "
+                      "composition of the two is argued in DESIGN.md, not machine-checked.",
+        "level_note": "A1 (floats as exact ring) for the kernel proof; A2 exact value domain and concrete shapes for the instances; "
+                      "Rc::drop_slow stubbed",
         "verus": ["V1_matmul_slice"],
         "kani_groups": ["h_matmul.rs"],
         "instances": c05_instances,
